@@ -19,6 +19,7 @@ import CtyModel.Lemmas.HeapInvF
 import CtyModel.Lemmas.HeapEscape
 import CtyModel.Lemmas.HeapPure
 import CtyModel.Lemmas.HeapInterleave
+import CtyModel.Lemmas.d20Conc
 namespace CtyModel
 namespace C20
 open Heap
@@ -454,6 +455,159 @@ theorem interleaving_prefix {V R : Type} (prog : Nat → List (Act V R))
       (exec (start prog m0) sched).out i = (solo m0 done).2 := by
   obtain ⟨done, hpr, hout, _⟩ := (inv_exec hp sched (inv_start prog shared own m0)).thread i
   exact ⟨done, hpr, hout⟩
+
+/-! ## 7. Sharing between goroutines — the heap model the driver runs
+
+§6 is generic.  Here its hypothesis is DISCHARGED for `Heap.step`, the step function the
+correspondence harness diffs against go-cty (`Lemmas/d20Conc.lean`). -/
+
+open Conc in
+/-- **Every API entry point of the model but six has an empty write set** — in every
+state, whatever its arguments: constructors, accessors, operation methods, `Copy`,
+`Values`, `Has`, `Length`, path helpers, `PathSet.List/Has`, the first callback
+invocation of `Walk`.  The six: `NumberVal(*big.Float)` and `cty.Tuple([]Type)` (take
+ownership of the caller's object — documented), `ValueSet.Add/Remove`, `PathSet.Add`
+(mutating methods of helper sets, documented as not concurrency-safe) and the
+continuation of a running `Walk` (appends to that walk's own path buffer). -/
+theorem api_write_set_empty (c : Api) :
+    (readOnlyApi c = true ∧ ∀ st x, wset st (.api c) x = false) ∨
+    (∃ g, c = .numberVal g) ∨ (∃ g, c = .tupleType g) ∨ (∃ g v h, c = .vsAdd g v h) ∨
+    (∃ g v h, c = .vsRemove g v h) ∨ (∃ g p h, c = .psAdd g p h) ∨ (∃ w, c = .walkNext w) := by
+  cases hc : readOnlyApi c with
+  | true => exact .inl ⟨rfl, wset_readOnly hc⟩
+  | false =>
+    right
+    cases c <;> simp [readOnlyApi] at hc
+    all_goals simp
+
+open Conc in
+/-- **Read-only footprint.**  A call of any of those entry points performs NO write to
+any object that existed before it, shared or not, reachable or not: the heap it
+leaves is the heap it found plus what it allocated.  (No ownership hypothesis.) -/
+theorem api_read_only_footprint {c : Api} (hc : readOnlyApi c = true) {st st' : St}
+    (h : step st (.api c) = some st') :
+    st.mem <+: st'.mem ∧
+      ∀ f w, frozen f st.mem w = true → fp f st'.mem w = fp f st.mem w :=
+  ⟨readOnly_prefix hc h,
+   fun f w hw => fp_stable (step_preserves (respectful_readOnly hc st) h) f w hw⟩
+
+open Conc Interleave in
+/-- **Any interleaving of goroutines equals their sequential runs — for `Heap.step`.**
+`st0` is the state when the goroutines start: every value and Go object of it is
+shared.  Goroutine `i` runs the history `progs i` (API calls and caller actions), each
+step being the model's `step` on the shared heap followed by the goroutine's own
+allocations.  A step is admitted when it respects the ownership rules and its write
+set holds no object of the shared heap (`sharedSafe`, decidable; a goroutine may
+mutate Go data it made itself, `Add` to a `ValueSet` it made itself, `Walk`).
+Then for EVERY schedule that runs all goroutines to completion, every goroutine gets
+back, step for step, exactly the states (values, Go data, answers) of running alone
+from `st0` — hence the same as under any other schedule, the sequential ones
+included — and the shared state is untouched.
+
+This instantiates `interleaving_equiv_sequential`: the footprint hypothesis
+(`Partitioned`) is `Arena.partitioned`, whose frame half is `step_writes_only`.
+ASSUMED, not proved: goroutines allocate in disjoint arenas (Go's allocator gives
+different goroutines different objects); the Go memory model; and that each real
+call's footprint is the model's (correspondence runs, `-race` worker). -/
+theorem goroutines_equiv_sequential (st0 : St) (progs : Nat → List HeapOp) (sched : List Nat)
+    (hdone : ∀ i, (exec (start (Arena.prog progs) (Arena.cells0 st0)) sched).todo i = []) :
+    (∀ i, (exec (start (Arena.prog progs) (Arena.cells0 st0)) sched).out i =
+        soloTrace st0.mem.length st0 (progs i)) ∧
+    (exec (start (Arena.prog progs) (Arena.cells0 st0)) sched).mem 0 = st0 := by
+  obtain ⟨hout, _, hsh⟩ := interleaving_equiv_sequential (Arena.prog progs) (fun x => x = 0)
+    (fun i x => x = i + 1) (Arena.partitioned progs) (Arena.cells0 st0) sched hdone
+  refine ⟨fun i => ?_, by simpa [Arena.cells0] using hsh 0 rfl⟩
+  rw [hout i]
+  have := (Arena.solo_act i (progs i) (Arena.cells0 st0)).1
+  simpa [Arena.view_cells0, Arena.cells0, Arena.prog] using this
+
+open Conc Interleave in
+/-- **…for goroutines that only USE shared values** (read-only API calls, fresh Go
+data): no side condition is left — the results are those of the model's unguarded
+`step`, whatever the schedule. -/
+theorem goroutines_read_only (st0 : St) (progs : Nat → List HeapOp) (sched : List Nat)
+    (hro : ∀ i, (progs i).all readOnlyOp = true)
+    (hdone : ∀ i, (exec (start (Arena.prog progs) (Arena.cells0 st0)) sched).todo i = []) (i : Nat) :
+    (exec (start (Arena.prog progs) (Arena.cells0 st0)) sched).out i = stepTrace st0 (progs i) := by
+  rw [(goroutines_equiv_sequential st0 progs sched hdone).1 i, soloTrace_readOnly _ _ _ (hro i)]
+
+open Conc Interleave in
+/-- **…and two schedules never disagree**: what a goroutine gets back does not depend
+on the schedule. -/
+theorem goroutines_schedule_independent (st0 : St) (progs : Nat → List HeapOp) (s s' : List Nat)
+    (h : ∀ i, (exec (start (Arena.prog progs) (Arena.cells0 st0)) s).todo i = [])
+    (h' : ∀ i, (exec (start (Arena.prog progs) (Arena.cells0 st0)) s').todo i = []) (i : Nat) :
+    (exec (start (Arena.prog progs) (Arena.cells0 st0)) s).out i =
+      (exec (start (Arena.prog progs) (Arena.cells0 st0)) s').out i := by
+  rw [(goroutines_equiv_sequential st0 progs s h).1 i, (goroutines_equiv_sequential st0 progs s' h').1 i]
+
+open Conc Interleave in
+/-- …at every moment of every schedule (complete or not) each goroutine has got back a
+prefix of its sequential results. -/
+theorem goroutines_prefix (st0 : St) (progs : Nat → List HeapOp) (sched : List Nat) (i : Nat) :
+    ∃ done rest, progs i = done ++ rest ∧
+      (exec (start (Arena.prog progs) (Arena.cells0 st0)) sched).out i =
+        soloTrace st0.mem.length st0 done := by
+  obtain ⟨done, hpr, hout⟩ := interleaving_prefix (Arena.prog progs) (fun x => x = 0)
+    (fun i x => x = i + 1) (Arena.partitioned progs) (Arena.cells0 st0) sched i
+  simp only [Arena.prog] at hpr
+  obtain ⟨d, r, hd, hdd, _⟩ := List.map_eq_append_iff.mp hpr
+  refine ⟨d, r, hd, ?_⟩
+  rw [hout, ← hdd]
+  have := (Arena.solo_act i d (Arena.cells0 st0)).1
+  simpa [Arena.view_cells0, Arena.cells0] using this
+
+
+/-- a state to fork from: `v0 = 3`, `v3 = ["x","y"]`, `v4 = v3.Mark("secret")` -/
+def forkState : St :=
+  run {} [.api (.numberIntVal 3), .api (.stringVal "x"), .api (.stringVal "y"), .caller (.newSlice [1, 2] 0),
+    .api (.listVal 0), .api (.mark 3 "secret")]
+
+/-- goroutine 0 copies the list out and overwrites its copy, adds, copies the number
+out and overwrites the copy; goroutine 1 indexes, unmarks and writes into the mark set
+it got, and walks the list -/
+def forkProgs : Nat → List HeapOp
+  | 0 => [.api (.asValueSlice 3 []), .caller (.setElem 1 0 2), .api (.opAdd 0 0), .api (.asBigFloat 0),
+          .caller (.setFloat 2 9)]
+  | 1 => [.api (.index 3 (.i 1)), .api (.unmark 4), .caller (.marksAdd 1 "m"), .api (.walkBegin 3),
+          .api (.walkNext 0), .api (.walkNext 0)]
+  | _ => []
+
+/-- the hypotheses of `goroutines_equiv_sequential` are jointly satisfiable by a
+non-trivial instance: a schedule that interleaves the two goroutines step by step runs
+both to completion, and every step of both is admitted and applies (no `none`) -/
+example :
+    (∀ i, (Interleave.exec (Interleave.start (Conc.Arena.prog forkProgs) (Conc.Arena.cells0 forkState))
+        [0, 1, 1, 0, 1, 0, 0, 1, 1, 0, 1]).todo i = []) ∧
+    (∀ i, (Conc.soloTrace forkState.mem.length forkState (forkProgs i)).all Option.isSome = true) ∧
+    forkState.mem.length = 4 := by
+  refine ⟨fun i => ?_, fun i => ?_, by decide⟩
+  · match i with
+    | 0 => rfl
+    | 1 => rfl
+    | n + 2 => exact Conc.Arena.todo_nil_of_prog_nil forkProgs forkState _ (n + 2) rfl
+  · match i with
+    | 0 => decide
+    | 1 => decide
+    | n + 2 => rfl
+
+open Conc in
+/-- **One heap, the model's own allocator: no schedule ever writes the shared heap.**
+All goroutines allocate from the one bump allocator of `Heap.alloc` (so addresses do
+depend on the schedule).  Whatever the schedule, complete or not, the heap the
+goroutines started from is a prefix of the current heap, and every value made of
+library-owned storage reports what it reported at the start. -/
+theorem shared_heap_untouched (st0 : St) (progs : Nat → List HeapOp) (sched : List Nat) :
+    st0.mem <+: (Global.exec st0.mem.length (Global.start st0 progs) sched).mem ∧
+    ∀ f w, frozen f st0.mem w = true →
+      fp f (Global.exec st0.mem.length (Global.start st0 progs) sched).mem w = fp f st0.mem w := by
+  obtain ⟨hl, ht⟩ := Global.exec_keeps (n := st0.mem.length) sched (Global.start st0 progs) (Nat.le_refl _)
+  have ht' : (Global.exec st0.mem.length (Global.start st0 progs) sched).mem.take st0.mem.length = st0.mem := by
+    rw [ht]; simp [Global.start]
+  refine ⟨?_, fun f w hw => fp_stable (Global.preserves_of_prefix ht' hl) f w hw⟩
+  have hp := List.take_prefix st0.mem.length (Global.exec st0.mem.length (Global.start st0 progs) sched).mem
+  rw [ht'] at hp
+  exact hp
 
 end C20
 end CtyModel
